@@ -64,7 +64,11 @@ enum : int
     ev_joined,          ///< ~pool_t: all workers joined
     ev_solver_done = 32, ///< solver_t::done on entry (object = the state, a = iter_ok, b = converged)
     ev_solver_exit,      ///< solver_t::done on exit (object = the state, a = returned value)
-    ev_al_outer          ///< augmented lagrangian: outer iteration (object = the inner solution, values = criteria)
+    ev_al_outer,         ///< augmented lagrangian: outer iteration (object = the inner solution, values = criteria)
+    ev_quasi_update = 40, ///< quasi-Newton: inverse Hessian updated (object = the solver,
+                          ///< values = n, dx[n], dg[n], H before[n*n], H after[n*n] as stored)
+    ev_lbfgs_direction    ///< L-BFGS: two-loop recursion done (object = the solver,
+                          ///< values = n, history size h, g[n], s_0..s_{h-1}[n] (oldest first), y_0..y_{h-1}[n], r[n] = H*g)
 };
 } // namespace nano::verif
 
